@@ -77,6 +77,17 @@ pub mod vio {
                 r is Err ==> !old(self).fault_free() || old(self).remaining().len() < old(buf)@.len(),
                 r is Err ==> final(self).remaining().len() <= old(self).remaining().len(),
                 old(self).fault_free() && old(self).remaining().len() >= old(buf)@.len() ==> r is Ok;
+
+        /// std::io::Read::read_to_end: drains the source completely into `buf`
+        fn read_to_end(&mut self, buf: &mut Vec<u8>) -> (r: Result<usize>)
+            ensures
+                final(self).fault_free() == old(self).fault_free(),
+                final(self).rcalls() > old(self).rcalls(),
+                final(self).reads() == old(self).reads(),
+                old(self).fault_free() ==> r is Ok,
+                r matches Ok(n) ==> n == old(self).remaining().len() && final(self).remaining().len() == 0
+                    && final(buf)@ == old(buf)@ + old(self).remaining(),
+                r is Err ==> final(self).remaining().len() <= old(self).remaining().len();
     }
 
     pub trait VWrite {
